@@ -69,3 +69,7 @@ Inductive view_mode := ViewInPlace | ViewRebinds | ViewUnknown.
 (* process runners: does every runner build an executor of its own (its tables start empty, its max_workers is the one the runner
    was given), or is an executor, or one of its tables, shared between the runners of one interpreter? *)
 Inductive exec_scope := ExecPerRunner | ExecShared | ExecScopeUnknown.
+
+(* lab.TaskState.complete_task / tasks._task_set_result_meta: is the result_meta of a completed task assigned to every instance
+   unconditionally (MarkAlways), or only to instances that carry none yet (MarkIfUnset)? *)
+Inductive mark_mode := MarkAlways | MarkIfUnset | MarkUnknown.
